@@ -762,7 +762,9 @@ pub fn add_missing_enum_commas(text: &str) -> String {
     for (i, l) in lines.iter().enumerate() {
         let t = l.trim();
         if !in_block {
-            if t.starts_with("type ") && t.ends_with('(') {
+            // (a struct whose first field carries a comment is rendered `type T (# text`, and the text may
+            // end with a bracket: the opening line of a multi-line enum has no comment on it)
+            if t.starts_with("type ") && t.ends_with('(') && !t.contains('#') {
                 in_block = true;
             }
             out.push(l.to_string());
